@@ -1,7 +1,8 @@
 (** * C03 (arithmetic instruction selection) — the per-form checker of the baseline JIT's machine
     code is sound: if [form_ok] accepts the code emitted for a [Copy]/[Add]/[Sub]/[Mul] bytecode
     instruction, then from every machine state the code computes, modulo 2^w, the instruction's
-    result into the home of its destination (register, stack slot or tape cell) and changes no
+    result into the home of its destination (register, stack slot or tape cell), leaves rbx, rsp
+    and rbp (context, stack and tape pointers) exactly as they were, and changes no
     other tape cell, no other stack slot and no register that is live after the instruction
     (rbx, rsp, rbp included), whatever the operand values — constants that do not fit 32 bits and
     temporaries spilled to the stack included.
@@ -12,7 +13,7 @@
     [form_ok].  Control flow, runtime calls and bounds checks are not covered by this theorem:
     they are validated by execution (see DESIGN.md). *)
 From Coq Require Import ZArith List Bool Zdiv.
-From HPBF Require Import Cell Expr BC X86 X86Proofs.
+From HPBF Require Import Cell Expr BC X86 X86Proofs X86Call X86CallProofs.
 Import ListNotations.
 Open Scope Z_scope.
 
@@ -33,6 +34,7 @@ Theorem C03_form_sound : forall w, 0 <= w <= 64 -> forall i live code,
   form_ok w i live code = true ->
   forall st0, exists d dst v,
     dst_of_instr i = Some d /\ home d = Some dst /\ instr_value st0 i = Some v /\
+    (forall r, pinned r = true -> xr (xrun w code st0) r = xr st0 r) /\
     eqm (2 ^ w) (xval (xrun w code st0) dst) v /\
     (forall k, LCell k <> dst -> eqm (2 ^ w) (xc (xrun w code st0) k) (xc st0 k)) /\
     (forall t, LSlot t <> dst -> eqm (2 ^ w) (xs (xrun w code st0) t) (xs st0 t)) /\
@@ -40,12 +42,54 @@ Theorem C03_form_sound : forall w, 0 <= w <= 64 -> forall i live code,
 Proof.
   intros w Hw i live code H st0.
   destruct (form_spec w i) as [[dst want]|] eqn:SP; [|unfold form_ok in H; rewrite SP in H; discriminate].
-  destruct (form_ok_sound w Hw st0 i live code dst want H SP) as (V & C & S & R).
+  destruct (form_ok_sound w Hw st0 i live code dst want H SP) as (PN & V & C & S & R).
   pose proof (form_spec_value w Hw st0 i dst want SP) as FV.
   destruct i as [| | | | | | |d a b|d a b|d a b|d a]; try contradiction; destruct FV as [HD HV];
     exists d, dst; eexists; (split; [reflexivity|]); (split; [exact HD|]); (split; [reflexivity|]);
-    (split; [unfold eqm in *; rewrite V; exact HV|]); (split; [exact C|]); (split; [exact S|exact R]).
+    (split; [exact PN|]); (split; [unfold eqm in *; rewrite V; exact HV|]); (split; [exact C|]); (split; [exact S|exact R]).
 Qed.
+
+(** ** runtime-call templates ([Inp], [Out]) — exact 64-bit semantics with a stack and a call
+    oracle ([X86Call.v]).  [st0]: any machine state at the start of the template with nothing
+    pushed yet; [oracle r]: what the callee leaves in caller-saved register [r] (its return value is
+    [oracle 0]).  If [call_ok] accepts the template then:
+    - exactly one call is made, with the context pointer (initial rbx) as first argument (and, for
+      output, the zero-extended cell as second), on a 16-byte aligned stack;
+    - the jump to the termination path is taken iff the callee reports failure (input: returns -1;
+      output: returns a non-zero byte), and then nothing is left on the stack and no cell changed;
+    - otherwise every pinned register and every register holding a live temporary has exactly its
+      initial value, nothing is left on the stack, and the only cell changed is, for input, the
+      destination, which holds the low w bits of the returned value. *)
+Theorem C03_input_template : forall w oracle st0, kk st0 = [] -> kcalls st0 = [] ->
+  forall dst live code, call_ok (Inp dst) live code = true ->
+  let st' := fst (krun w oracle code st0) in
+  let ex := snd (krun w oracle code st0) in
+  (exists a2, kcalls st' = [(kr st0 3, a2)]) /\ ex = (oracle 0 =? U64M1) /\ kk st' = [] /\
+  (ex = true -> forall k, kc st' k = kc st0 k) /\
+  (ex = false -> (forall r, must_keep live r = true -> kr st' r = kr st0 r) /\
+                 (forall k, kc st' k = if k =? dst then oracle 0 mod 2 ^ w else kc st0 k)).
+Proof. exact call_ok_inp. Qed.
+
+Theorem C03_output_template : forall w oracle st0, kk st0 = [] -> kcalls st0 = [] ->
+  forall src live code, call_ok (Outp src) live code = true ->
+  let st' := fst (krun w oracle code st0) in
+  let ex := snd (krun w oracle code st0) in
+  kcalls st' = [(kr st0 3, kc st0 src)] /\ ex = negb (oracle 0 mod 256 =? 0) /\ kk st' = [] /\
+  (forall k, kc st' k = kc st0 k) /\
+  (ex = false -> forall r, must_keep live r = true -> kr st' r = kr st0 r).
+Proof. exact call_ok_out. Qed.
+
+(** the template the JIT emits for  Inp(-1)  with temporaries 4, 5, 6 live (three pushes and the
+    alignment word) is accepted; without the alignment word, or jumping before the pops, it is not *)
+Example C03_call_nonvacuous :
+  let good := [KPush 6; KPush 7; KPush 2; KSubRsp; KMovRR 7 3; KMovI 0 4096; KCall 0; KAddRsp; KPop 2; KPop 7; KPop 6;
+               KCmp64 0 U64M1; KJe; KStore (-1) 0] in
+  let unaligned := [KPush 6; KPush 7; KPush 2; KMovRR 7 3; KMovI 0 4096; KCall 0; KPop 2; KPop 7; KPop 6;
+                    KCmp64 0 U64M1; KJe; KStore (-1) 0] in
+  let early := [KPush 6; KPush 7; KPush 2; KSubRsp; KMovRR 7 3; KMovI 0 4096; KCall 0; KCmp64 0 U64M1; KJe;
+                KAddRsp; KPop 2; KPop 7; KPop 6; KStore (-1) 0] in
+  call_ok (Inp (-1)) 112 good = true /\ call_ok (Inp (-1)) 112 unaligned = false /\ call_ok (Inp (-1)) 112 early = false.
+Proof. vm_compute. repeat split; reflexivity. Qed.
 
 (** non-vacuity: the code the JIT emits for  Mul(Mem 0, Tmp 11, Tmp 12)  at 8 bits is accepted; the
     same with [add] for [imul] is rejected, and so is code that clobbers a live register *)
@@ -56,3 +100,5 @@ Example C03_nonvacuous :
 Proof. vm_compute. repeat split; reflexivity. Qed.
 
 Print Assumptions C03_form_sound.
+Print Assumptions C03_input_template.
+Print Assumptions C03_output_template.
